@@ -36,4 +36,18 @@ def run_async_from_sync(coroutine):
     except RuntimeError:
         if not hasattr(_cached_loop, "loop"):
             _cached_loop.loop = asyncio.new_event_loop()
-        return _cached_loop.loop.run_until_complete(coroutine)
+        loop = _cached_loop.loop
+        task = asyncio.ensure_future(coroutine, loop=loop)
+        try:
+            return loop.run_until_complete(task)
+        except (KeyboardInterrupt, SystemExit):
+            # asyncio lets these escape from the loop at once, possibly before our task has
+            # unwound (queue cleared, lock released). As `asyncio.run` does: cancel the task,
+            # let it finish, then propagate.
+            if not task.done():
+                task.cancel()
+                try:
+                    loop.run_until_complete(task)
+                except BaseException:  # noqa: S110
+                    pass
+            raise
